@@ -102,6 +102,7 @@ type Case struct {
 	Shape *Type   // the type under test (nil for specials)
 	Rec   *Record // top-level record
 	Class string  // ctx|shape class — used in signatures
+	Extra []*Record // further definitions rendered AFTER Rec (forward references)
 }
 
 // Shapes enumerates the type-shape alphabet for a tier.
@@ -249,6 +250,13 @@ func (s *Support) Cases(thorough bool) []*Case {
 	bigU := &Record{Kind: Union, Name: "CXBigUnion"}
 	bigU.Branches = []Branch{{1, &Record{Kind: Struct, Inline: true, Name: "CXBigUnionA", Fields: []Field{{Name: "b", Type: A(P("byte"))}}}}, {2, &Record{Kind: Message, Inline: true, Name: "CXBigUnionB", Fields: []Field{{Name: "s", Index: 1, Type: P("string")}}}}}
 	out = append(out, &Case{ID: "CXBigUnion", Ctx: "X", Class: "X|big-union", Rec: bigU})
+	// forward references: a struct made only of structs declared later in the file (sizes are not known top-down)
+	fwdB := &Record{Kind: Struct, Name: "CXFwdB", Support: true, Label: "struct:fixed", Fields: []Field{{Name: "x", Type: P("int32")}, {Name: "y", Type: P("uint16")}}}
+	fwdA := &Record{Kind: Struct, Name: "CXFwdA", Support: true, Label: "struct:forward-declared", Fields: []Field{{Name: "b", Type: R(fwdB)}, {Name: "c", Type: R(fwdB)}}}
+	fwd := &Record{Kind: Struct, Name: "CXFwd", Fields: []Field{{Name: "items", Type: A(R(fwdA))}, {Name: "m", Type: M("uint32", R(fwdA))}, after()}}
+	out = append(out, &Case{ID: "CXFwd", Ctx: "X", Class: "X|forward-declared-structs", Rec: fwd, Extra: []*Record{fwdA, fwdB}})
+	fwdM := &Record{Kind: Message, Name: "CXFwdM", Fields: []Field{{Name: "items", Index: 1, Type: A(R(fwdA))}, {Name: "after", Index: 2, Type: P("int32")}}}
+	out = append(out, &Case{ID: "CXFwdM", Ctx: "X", Class: "X|forward-declared-structs-in-message", Rec: fwdM, Extra: []*Record{fwdA, fwdB}})
 	// recursion through a message / a union
 	rm := &Record{Kind: Message, Name: "CXRecM"}
 	rm.Fields = []Field{{Name: "v", Index: 1, Type: P("int32")}, {Name: "next", Index: 2, Type: R(rm)}, {Name: "kids", Index: 3, Type: A(R(rm))}}
@@ -275,8 +283,15 @@ func (s *Support) Cases(thorough bool) []*Case {
 func (s *Support) BatchSchema(cases []*Case) *Schema {
 	sc := &Schema{Enums: s.Enums}
 	sc.Records = append(sc.Records, s.Records...)
+	seen := map[*Record]bool{}
 	for _, c := range cases {
 		sc.Records = append(sc.Records, c.Rec)
+		for _, x := range c.Extra {
+			if !seen[x] {
+				seen[x] = true
+				sc.Records = append(sc.Records, x)
+			}
+		}
 	}
 	return sc
 }
